@@ -342,8 +342,15 @@ def output_types(draw, u, lt, inner=False):
             opts += ["optbox"] + (["optref"] if lt else [])
         if p["option"]:
             opts += ["optprim"] + (["optenum"] if u.enums else []) + (["optstruct"] if u.structs or u.out_structs else [])
+        if lt and p.get("opt_slice_returns", False):
+            opts += ["optslice", "optstr"]      # Option<&'a [T]> / Option<&'a str> (build-level checks only)
     k = draw(st.sampled_from(opts))
     sp = draw(st.sampled_from(["std", "std", "dip"])) if p.get("dip_spelling", True) else "std"
+    if k == "optslice":
+        return ["opt", ["slice", lt, False, draw(slice_prims(p)), "std"], "std"]
+    if k == "optstr":
+        encs = ["utf8", "str8"] + (["str16"] if p.get("str16", True) else [])
+        return ["opt", ["str", lt, draw(st.sampled_from(encs)), "std"], "std"]
     if k == "prim":
         return ["prim", draw(prims(p))]
     if k == "enum":
